@@ -423,7 +423,8 @@ pub(crate) async fn run_tsync(script: &Script, obs: &mut Vec<String>) {
         queue: Vec::new(),
         ord: 0,
     };
-    let mut pending: Vec<(String, SyncFuture)> = Vec::new();
+    // (token, future, already handed to the master: polled at least once by a `run`)
+    let mut pending: Vec<(String, SyncFuture, bool)> = Vec::new();
 
     for op in &script.ops {
         match op[0].as_str() {
@@ -433,6 +434,7 @@ pub(crate) async fn run_tsync(script: &Script, obs: &mut Vec<String>) {
                 pending.push((
                     op[1].clone(),
                     Box::pin(async move { a.synchronize_time(p).await }),
+                    false,
                 ));
             }
             "fwd" => chan.fwd = op[1].parse().unwrap(),
@@ -471,6 +473,29 @@ pub(crate) async fn run_tsync(script: &Script, obs: &mut Vec<String>) {
                 chan.log(format!("inj {} {}", t, hex(&data)));
                 let mut wrote = Vec::new();
                 deliver(&mut m_handle, &data, |w| wrote.push(w)).await;
+                // a synchronisation completed by this very fragment is reported before what the
+                // master went on to write (the order in which the master did it)
+                let done: Vec<(usize, Result<(), TimeSyncError>)> = std::future::poll_fn(|cx| {
+                    let mut out = Vec::new();
+                    for (i, (_, f, started)) in pending.iter_mut().enumerate() {
+                        if *started {
+                            if let Poll::Ready(r) = f.as_mut().poll(cx) {
+                                out.push((i, r));
+                            }
+                        }
+                    }
+                    Poll::Ready(out)
+                })
+                .await;
+                let mut removed = 0;
+                for (i, r) in done {
+                    let (token, _, _) = pending.remove(i - removed);
+                    removed += 1;
+                    chan.log(match r {
+                        Ok(()) => format!("res {} ok", token),
+                        Err(e) => format!("res {} err {}", token, err_kind(e)),
+                    });
+                }
                 // the master has run until it blocked again: whatever it wrote is in the event queue
                 while let Some(ev) = m_handle.pop_event() {
                     if let Event::Write(w) = ev {
@@ -490,7 +515,8 @@ pub(crate) async fn run_tsync(script: &Script, obs: &mut Vec<String>) {
                     let deadline = chan.next_arrival().map_or(target, |a| a.min(target));
                     let wake = {
                         let results = std::future::poll_fn(|cx| {
-                            for (i, (_, f)) in pending.iter_mut().enumerate() {
+                            for (i, (_, f, started)) in pending.iter_mut().enumerate() {
+                                *started = true;
                                 if let Poll::Ready(r) = f.as_mut().poll(cx) {
                                     return Poll::Ready((i, r));
                                 }
@@ -508,7 +534,7 @@ pub(crate) async fn run_tsync(script: &Script, obs: &mut Vec<String>) {
                     };
                     match wake {
                         Wake::Result(i, r) => {
-                            let (token, _) = pending.remove(i);
+                            let (token, _, _) = pending.remove(i);
                             chan.log(match r {
                                 Ok(()) => format!("res {} ok", token),
                                 Err(e) => format!("res {} err {}", token, err_kind(e)),
